@@ -26,6 +26,7 @@
 #include <vector>
 #include <sstream>
 #include <chrono>
+#include <thread>
 
 #include <sys/syscall.h>
 #include <tbox/base/defines.h>
@@ -122,6 +123,10 @@ void Sink::disable()
 {
     if (is_enabled_) {
         is_enabled_ = false;
+        //! 等待已经通过使能检查的 commitRecord() 全部离开后，才能清理 async_pipe_。
+        //! 否则它们会在 cleanup() 期间或之后向管道追加数据：已提交的记录丢失、访问已释放的缓冲
+        while (committing_count_ != 0)
+            std::this_thread::yield();
         async_pipe_.cleanup();
         CHECK_CLOSE_RESET_FD(curr_record_fd_);
         buffer_.hasReadAll();
@@ -156,20 +161,25 @@ void Sink::commitRecord(const char *name, const char *module, uint32_t line, uin
     if (!is_enabled_)
         return;
 
-    RecordHeader header = {
-        .thread_id = ::syscall(SYS_gettid),
-        .end_ts_us = end_timepoint_us,
-        .duration_us = duration_us,
-        .line = line,
-        .name_size = ::strlen(name) + 1,
-        .module_size = ::strlen(module) + 1
-    };
+    //! 先登记“正在提交”，再复查使能标志：disable() 先清除标志，再等待登记数归零
+    ++committing_count_;
+    if (is_enabled_) {
+        RecordHeader header = {
+            .thread_id = ::syscall(SYS_gettid),
+            .end_ts_us = end_timepoint_us,
+            .duration_us = duration_us,
+            .line = line,
+            .name_size = ::strlen(name) + 1,
+            .module_size = ::strlen(module) + 1
+        };
 
-    async_pipe_.appendLock();
-    async_pipe_.appendLockless(&header, sizeof(header));
-    async_pipe_.appendLockless(name, header.name_size);
-    async_pipe_.appendLockless(module, header.module_size);
-    async_pipe_.appendUnlock();
+        async_pipe_.appendLock();
+        async_pipe_.appendLockless(&header, sizeof(header));
+        async_pipe_.appendLockless(name, header.name_size);
+        async_pipe_.appendLockless(module, header.module_size);
+        async_pipe_.appendUnlock();
+    }
+    --committing_count_;
 }
 
 void Sink::onBackendRecvData(const void *data, size_t size)
